@@ -23,6 +23,16 @@ CHECKS = {
             "3.C06", "files in a per-worker temporary directory; metadata compared modulo the reserved keys weight/time/layer"),
     "C07": (MC, "E1 (content-grouped)", "explicit-state exploration of all four real containers over the C01-C04 alphabets; states grouped by publicly observable content, up to 3-4 representatives with different private tables expanded, (content, hash) recorded for the target of every transition: one hash per content (all histories agree), one content per hash (across types), hashing leaves the content unchanged",
             "3.C07", "content = what the public query API reports, including weights' numeric type and the full hypergraph-level metadata"),
+    "C08": (EX, "E4", "bounded-exhaustive enumeration of Hypergraph contents (quick <=4 hyperedges over 4 nodes, thorough all 2^15) x every order/size filter x every node, through methods and module functions; degrees and components compared with counting / union-find by definition; degrees also on Directed/Temporal/Multiplex contents",
+            "3.C08", "definitions in hgxmc/checks/c08.py; direct and detour builds"),
+    "C09": (EX, "E4", "bounded-exhaustive enumeration of Hypergraph / TemporalHypergraph contents with non-contiguous integer and string labels; every matrix function compared entry-by-entry with its definition as label-indexed dictionaries through the returned mapping (mapping must be a bijection)",
+            "3.C09", "laplacian_matrix_by_order returns no mapping: rows read in sorted-label order"),
+    "C10": (EX, "E4", "bounded-exhaustive enumeration of Hypergraph and DirectedHypergraph contents x both distance functions x every attainable threshold x weighted; projections compared with incidence definitions in exact rational arithmetic",
+            "3.C10", "thresholds are exact rationals p/q, q<=4 (quick) converted to float"),
+    "C11": (EX, "E4", "bounded-exhaustive enumeration: all hypergraphs on 4 nodes (order 3 complete; order 4 <=3 hyperedges quick / all 2^11 thorough) and on 5 nodes, census compared class-by-class with brute force over all node subsets and relabellings; directed census checked on every member of every isomorphism class",
+            "3.C11", "brute-force oracle; 6 and 171 classes re-derived by the oracle itself"),
+    "C12": (EX, "E4", "bounded-exhaustive enumeration of DirectedHypergraph contents x every bound 2..6 x every degree filter; signature and the three reciprocities compared with their definitions in exact rational arithmetic; exact <= strong <= weak checked per size",
+            "3.C12", "definitions as stated in the property"),
 }
 PENDING = {}
 for i in range(1, 21):
